@@ -102,6 +102,27 @@ pub enum Spec {
     GoodThomasSmall(Box<Spec>, Box<Spec>),
     Raders(Box<Spec>),
     Bluestein(usize, Box<Spec>),
+    /// fault `ctor.precondition`: a documented constructor precondition is violated by the caller
+    Ill(IllCtor),
+}
+
+/// Constructions through the safe public API that violate a documented precondition (caller error at construction time).
+#[derive(Clone, Debug, PartialEq, Eq, Hash, Serialize, Deserialize)]
+pub enum IllCtor {
+    /// which: 0 MixedRadix, 1 MixedRadixSmall, 2 GoodThomasAlgorithm, 3 GoodThomasAlgorithmSmall; the second inner transform has the opposite direction
+    Dirs(u8, Box<Spec>, Box<Spec>),
+    /// GoodThomasAlgorithm (false) / GoodThomasAlgorithmSmall (true) over lengths that are not coprime
+    NotCoprime(bool, Box<Spec>, Box<Spec>),
+    /// MixedRadixSmall (false) / GoodThomasAlgorithmSmall (true) over inner transforms whose scratch needs break the documented limit
+    SmallScratch(bool, Box<Spec>, Box<Spec>),
+    /// RadersAlgorithm with inner.len() + 1 not prime
+    RadersNotPrime(Box<Spec>),
+    /// BluesteinsAlgorithm with inner.len() < 2*len - 1
+    BluesteinShort(usize, Box<Spec>),
+    /// Radix4::new with a length that is not a power of two
+    Radix4Len(usize),
+    /// Radix3::new with a length that is not a power of three
+    Radix3Len(usize),
 }
 
 pub const BUTTERFLIES: [usize; 21] = [1, 2, 3, 4, 5, 6, 7, 8, 9, 11, 12, 13, 16, 17, 19, 23, 24, 27, 29, 31, 32];
@@ -115,7 +136,15 @@ impl Spec {
             Spec::MixedRadix(a, b) | Spec::MixedRadixSmall(a, b) | Spec::GoodThomas(a, b) | Spec::GoodThomasSmall(a, b) => a.len() * b.len(),
             Spec::Raders(i) => i.len() + 1,
             Spec::Bluestein(n, _) => *n,
+            Spec::Ill(i) => match i {
+                IllCtor::Dirs(_, a, b) | IllCtor::NotCoprime(_, a, b) | IllCtor::SmallScratch(_, a, b) => a.len() * b.len(),
+                IllCtor::RadersNotPrime(i) => i.len() + 1,
+                IllCtor::BluesteinShort(n, _) | IllCtor::Radix4Len(n) | IllCtor::Radix3Len(n) => *n,
+            },
         }
+    }
+    pub fn is_ill(&self) -> bool {
+        matches!(self, Spec::Ill(_))
     }
     pub fn short(&self) -> String {
         match self {
@@ -132,6 +161,15 @@ impl Spec {
             Spec::GoodThomasSmall(a, b) => format!("GTs({},{})", a.short(), b.short()),
             Spec::Raders(i) => format!("Rad({})", i.short()),
             Spec::Bluestein(n, i) => format!("Blu({},{})", n, i.short()),
+            Spec::Ill(i) => match i {
+                IllCtor::Dirs(w, a, b) => format!("ILL-dirs{}({},{})", w, a.short(), b.short()),
+                IllCtor::NotCoprime(s, a, b) => format!("ILL-GT{}({},{})", if *s { "s" } else { "" }, a.short(), b.short()),
+                IllCtor::SmallScratch(g, a, b) => format!("ILL-{}s-scratch({},{})", if *g { "GT" } else { "MR" }, a.short(), b.short()),
+                IllCtor::RadersNotPrime(i) => format!("ILL-Rad({})", i.short()),
+                IllCtor::BluesteinShort(n, i) => format!("ILL-Blu({},{})", n, i.short()),
+                IllCtor::Radix4Len(n) => format!("ILL-R4({})", n),
+                IllCtor::Radix3Len(n) => format!("ILL-R3({})", n),
+            },
         }
     }
     pub fn is_planned(&self) -> bool {
@@ -199,6 +237,40 @@ pub fn build<T: Elem>(spec: &Spec, dir: Dir) -> Result<Arc<dyn Fft<T>>, String> 
         }
         Spec::Raders(i) => wrap(RadersAlgorithm::new(build(i, dir)?)),
         Spec::Bluestein(n, i) => wrap(BluesteinsAlgorithm::new(*n, build(i, dir)?)),
+        Spec::Ill(ill) => match ill {
+            IllCtor::Dirs(which, a, b) => {
+                let (fa, fb) = (build::<T>(a, dir)?, build::<T>(b, dir.opp())?);
+                match which {
+                    0 => wrap(MixedRadix::new(fa, fb)),
+                    1 => wrap(MixedRadixSmall::new(fa, fb)),
+                    2 => wrap(GoodThomasAlgorithm::new(fa, fb)),
+                    _ => wrap(GoodThomasAlgorithmSmall::new(fa, fb)),
+                }
+            }
+            IllCtor::NotCoprime(small, a, b) => {
+                let (fa, fb) = (build::<T>(a, dir)?, build::<T>(b, dir)?);
+                if *small {
+                    wrap(GoodThomasAlgorithmSmall::new(fa, fb))
+                } else {
+                    wrap(GoodThomasAlgorithm::new(fa, fb))
+                }
+            }
+            IllCtor::SmallScratch(gt, a, b) => {
+                let (fa, fb) = (build::<T>(a, dir)?, build::<T>(b, dir)?);
+                if small_ok(&fa, &fb).is_ok() {
+                    return Err("ill-ctor: the inner transforms happen to meet the *Small limits".into());
+                }
+                if *gt {
+                    wrap(GoodThomasAlgorithmSmall::new(fa, fb))
+                } else {
+                    wrap(MixedRadixSmall::new(fa, fb))
+                }
+            }
+            IllCtor::RadersNotPrime(i) => wrap(RadersAlgorithm::new(build(i, dir)?)),
+            IllCtor::BluesteinShort(n, i) => wrap(BluesteinsAlgorithm::new(*n, build(i, dir)?)),
+            IllCtor::Radix4Len(n) => wrap(Radix4::new(*n, d)),
+            IllCtor::Radix3Len(n) => wrap(Radix3::new(*n, d)),
+        },
     })
 }
 
